@@ -863,3 +863,365 @@ Proof.
   destruct (is_nil (affected_of tracked col idx s)); [discriminate|].
   apply (next_state_enough_fuel m b draw d Hd fuel s (affected_of tracked col idx s) c0 Hs (Hf s Hs)). now rewrite Hg.
 Qed.
+
+(* ================================================================================================================
+   hooks: the log-threading loops project onto the plain ones, and the log of a normal call is [effects]
+   ================================================================================================================ *)
+Lemma map_write_members col aff t : map (write col aff t) aff = map (fun _ => t) aff.
+Proof.
+  apply map_ext_in. intros l Hl. unfold write. now rewrite (proj2 (zmem_In l aff) Hl).
+Qed.
+
+Definition sim_ok (recw : state -> list label -> world -> world * outcome)
+                  (rec : state -> list label -> column -> column * outcome)
+                  (eff : state -> list label -> list entry) : Prop :=
+  forall st aff w w' o, recw st aff w = (w', o) ->
+    rec st aff (fst w) = (fst w', o) /\ (o = Done -> snd w' = snd w ++ eff st aff).
+
+Lemma do_group_sim recw rec eff m outs g w w' o : sim_ok recw rec eff ->
+  do_group_w recw m outs g w = (w', o) ->
+  do_group rec m outs g (fst w) = (fst w', o) /\ (o = Done -> snd w' = snd w ++ group_entries eff m outs g).
+Proof.
+  intros Hs. destruct g as [j aff]. unfold do_group_w, do_group, group_entries.
+  destruct (is_nil aff).
+  { intros H. inversion H; subst. split; [reflexivity|intros _; now rewrite app_nil_r]. }
+  destruct (nth_error outs j) as [[|t]|].
+  - intros H. inversion H; subst. split; [reflexivity|intros _; now rewrite app_nil_r].
+  - destruct (find_state t (m_states m)) as [st|].
+    + destruct (s_transient st).
+      * intros H. destruct (Hs _ _ _ _ _ H) as [A B]. simpl in A. split; [exact A|].
+        intros Ho. rewrite (B Ho). simpl. rewrite map_write_members, <- app_assoc. reflexivity.
+      * intros H. inversion H; subst. simpl. split; [reflexivity|]. intros _. now rewrite map_write_members.
+    + intros H. inversion H; subst. simpl. split; [reflexivity|]. intros _. now rewrite map_write_members.
+  - intros H. inversion H; subst. split; [reflexivity|intros _; now rewrite app_nil_r].
+Qed.
+
+Lemma run_seq_sim {G} (fw : G -> world -> world * outcome) (f : G -> column -> column * outcome) (E : G -> list entry) gs :
+  (forall g w w' o, In g gs -> fw g w = (w', o) -> f g (fst w) = (fst w', o) /\ (o = Done -> snd w' = snd w ++ E g)) ->
+  forall w w' o, run_seq fw gs w = (w', o) ->
+  run_seq f gs (fst w) = (fst w', o) /\ (o = Done -> snd w' = snd w ++ flat_map E gs).
+Proof.
+  induction gs as [|g r IH]; intros H w w' o Hr; simpl in *.
+  - inversion Hr; subst. split; [reflexivity|intros _; now rewrite app_nil_r].
+  - destruct (fw g w) as [w1 o1] eqn:Eg. destruct (H g w w1 o1 (or_introl eq_refl) Eg) as [A B]. rewrite A.
+    destruct o1.
+    + destruct (IH (fun g0 a b c Hin => H g0 a b c (or_intror Hin)) w1 w' o Hr) as [C D]. split; [exact C|].
+      intros Ho. rewrite (D Ho), (B eq_refl), <- app_assoc. reflexivity.
+    + inversion Hr; subst. split; [reflexivity|discriminate].
+    + inversion Hr; subst. split; [reflexivity|discriminate].
+Qed.
+
+Lemma next_state_sim m b draw : forall fuel,
+  sim_ok (next_state_w fuel m b draw) (next_state fuel m b draw) (effects fuel m b draw).
+Proof.
+  induction fuel as [|f IH]; intros s idx w w' o H; simpl in *.
+  - inversion H; subst. split; [reflexivity|discriminate].
+  - destruct (is_nil (s_trans s) || is_nil idx).
+    { inversion H; subst. split; [reflexivity|intros _; now rewrite app_nil_r]. }
+    destruct (decisions (m_den m) b draw s idx) as [ds|e|].
+    + destruct (existsb (fun d => (length (outputs s) <=? snd d)%nat) ds).
+      { inversion H; subst. split; [reflexivity|discriminate]. }
+      destruct (negb (znodup (map t_target (s_trans s)))).
+      { inversion H; subst. split; [reflexivity|discriminate]. }
+      apply (run_seq_sim _ _ (group_entries (effects f m b draw) m (outputs s)) _
+               (fun g a c d _ Hd => do_group_sim _ _ _ m (outputs s) g a c d IH Hd) w w' o H).
+    + inversion H; subst. split; [reflexivity|discriminate].
+    + inversion H; subst. split; [reflexivity|discriminate].
+Qed.
+
+Lemma transition_sim fuel m b draw tracked col idx w' o :
+  transition_w fuel m b draw tracked col idx = (w', o) ->
+  transition fuel m b draw tracked col idx = (fst w', o) /\
+  (o = Done -> snd w' = transition_effects fuel m b draw tracked col idx).
+Proof.
+  unfold transition_w, transition, transition_effects. intros H.
+  apply (run_seq_sim _ (fun s c => let aff := affected_of tracked col idx s in
+                                   if is_nil aff then (c, Done) else next_state fuel m b draw s aff c)
+                     (fun s => effects fuel m b draw s (affected_of tracked col idx s))) in H.
+  - exact H.
+  - intros s w w1 o1 _ Hs. cbv zeta in *. destruct (is_nil (affected_of tracked col idx s)) eqn:En.
+    + inversion Hs; subst. split; [reflexivity|]. intros _. apply is_nil_false_mem in En. rewrite En.
+      destruct fuel; simpl; [now rewrite app_nil_r|]. rewrite orb_true_r. now rewrite app_nil_r.
+    + exact (next_state_sim m b draw fuel s _ w w1 o1 Hs).
+Qed.
+
+(* every hook sees its whole group already in the new state; groups are never empty *)
+Definition entry_ok (e : entry) : Prop := e_members e <> [] /\ e_seen e = map (fun _ => e_state e) (e_members e).
+
+Lemma effects_entries_ok m b draw : forall fuel s idx e, In e (effects fuel m b draw s idx) -> entry_ok e.
+Proof.
+  induction fuel as [|f IH]; intros s idx e H; simpl in H; [contradiction|].
+  destruct (is_nil (s_trans s) || is_nil idx); [contradiction|].
+  destruct (decisions (m_den m) b draw s idx) as [ds| |]; try contradiction.
+  apply in_flat_map in H as [[j aff] [_ H]]. unfold group_entries in H.
+  destruct (is_nil aff) eqn:En; [contradiction|].
+  destruct (nth_error (outputs s) j) as [[|t]|]; try contradiction.
+  destruct H as [<-|H].
+  - split; simpl; [intros ->; discriminate|reflexivity].
+  - destruct (find_state t (m_states m)) as [st|]; [|contradiction].
+    destruct (s_transient st); [|contradiction]. exact (IH _ _ _ H).
+Qed.
+
+Lemma effects_members m b draw : forall fuel s idx e l, In e (effects fuel m b draw s idx) -> In l (e_members e) -> In l idx.
+Proof.
+  induction fuel as [|f IH]; intros s idx e l H Hl; simpl in H; [contradiction|].
+  destruct (is_nil (s_trans s) || is_nil idx); [contradiction|].
+  destruct (decisions (m_den m) b draw s idx) as [ds| |] eqn:Eds; try contradiction.
+  destruct (decisions_spec _ _ _ _ _ _ Eds) as [Dfst _].
+  apply in_flat_map in H as [[j aff] [Hg H]].
+  apply (Permutation_in _ (Permutation_sym (sort_groups_perm _ _))), groups_In in Hg as [j' [_ Hg]].
+  inversion Hg; subst j' aff. clear Hg.
+  assert (Hsub : forall x, In x (group_of ds j) -> In x idx).
+  { intros x Hx. apply group_of_In in Hx. rewrite <- Dfst. apply (in_map fst _ _ Hx). }
+  unfold group_entries in H. destruct (is_nil (group_of ds j)); [contradiction|].
+  destruct (nth_error (outputs s) j) as [[|t]|]; try contradiction.
+  destruct H as [<-|H]; [now apply Hsub|].
+  destruct (find_state t (m_states m)) as [st|]; [|contradiction].
+  destruct (s_transient st); [|contradiction]. apply Hsub. exact (IH _ _ _ _ H Hl).
+Qed.
+
+(* ================================================================================================================
+   per simulant: the hooks that saw it are exactly the states it was written into, in that order
+   ================================================================================================================ *)
+Lemma seen_by_app l l1 l2 : seen_by l (l1 ++ l2) = seen_by l l1 ++ seen_by l l2.
+Proof. unfold seen_by. now rewrite filter_app, map_app. Qed.
+
+Lemma seen_by_flat_map {G} l (F : G -> list entry) gs : seen_by l (flat_map F gs) = flat_map (fun g => seen_by l (F g)) gs.
+Proof. induction gs as [|g r IH]; simpl; [reflexivity|]. now rewrite seen_by_app, IH. Qed.
+
+Lemma flat_map_all_nil {G A} (P : G -> list A) gs : (forall g, In g gs -> P g = []) -> flat_map P gs = [].
+Proof.
+  induction gs as [|g r IH]; intros H; simpl; [reflexivity|].
+  rewrite (H g (or_introl eq_refl)), IH; [reflexivity|]. intros g0 Hg0. apply H. now right.
+Qed.
+
+Lemma flat_map_single {G A} (P : G -> list A) gs g0 :
+  NoDup gs -> In g0 gs -> (forall g, In g gs -> g <> g0 -> P g = []) -> flat_map P gs = P g0.
+Proof.
+  induction gs as [|g r IH]; intros Hnd Hin Hz; simpl; [contradiction|]. inversion Hnd; subst.
+  destruct Hin as [->|Hin].
+  - rewrite (flat_map_all_nil P r); [now rewrite app_nil_r|].
+    intros g1 Hg1. apply Hz; [now right|]. intros ->. contradiction.
+  - rewrite (Hz g (or_introl eq_refl)); [|intros ->; contradiction]. simpl.
+    apply IH; auto. intros g1 Hg1. apply Hz. now right.
+Qed.
+
+Lemma all_decide_ok D b draw s idx : (forall i, In i idx -> exists k, decide D b draw s i = Ok k) ->
+  exists ds, decisions D b draw s idx = Ok ds.
+Proof.
+  induction idx as [|i r IH]; intros H; simpl; [now exists []|].
+  destruct (H i (or_introl eq_refl)) as [k ->].
+  destruct (IH (fun j Hj => H j (or_intror Hj))) as [ds ->]. now eexists.
+Qed.
+
+Lemma walk_ok_decide m b draw f s l r : walk (S f) m b draw s l = Ok r -> is_nil (s_trans s) = false ->
+  exists k, decide (m_den m) b draw s l = Ok k.
+Proof.
+  simpl. intros H En. rewrite En in H. destruct (decide (m_den m) b draw s l) as [k| |]; try discriminate. now exists k.
+Qed.
+
+Lemma walk_ok_inner m b draw f s l r k t st : walk (S f) m b draw s l = Ok r -> is_nil (s_trans s) = false ->
+  decide (m_den m) b draw s l = Ok k -> nth_error (outputs s) k = Some (OState t) ->
+  find_state t (m_states m) = Some st -> s_transient st = true -> exists r', walk f m b draw st l = Ok r'.
+Proof.
+  simpl. intros H En Hd Ho Hf Ht. rewrite En, Hd in H.
+  destruct (negb (znodup (map t_target (s_trans s)))); [discriminate|]. rewrite Ho, Hf, Ht in H.
+  destruct (walk f m b draw st l) as [r'| |]; try discriminate. now exists r'.
+Qed.
+
+Lemma groups_NoDup n ds : NoDup (groups n ds).
+Proof.
+  apply (NoDup_map_inv fst). rewrite groups_tags. apply seq_NoDup.
+Qed.
+
+Lemma effects_seen_by m b draw : forall fuel s idx,
+  (forall l, In l idx -> exists r, walk fuel m b draw s l = Ok r) ->
+  forall l, seen_by l (effects fuel m b draw s idx) = if zmem l idx then trail fuel m b draw s l else [].
+Proof.
+  induction fuel as [|f IH]; intros s idx Hw l; simpl.
+  { now destruct (zmem l idx). }
+  destruct (is_nil (s_trans s)) eqn:Ent; simpl; [now destruct (zmem l idx)|].
+  destruct (is_nil idx) eqn:Eni; simpl.
+  { apply is_nil_false_mem in Eni. now subst. }
+  destruct (all_decide_ok (m_den m) b draw s idx) as [ds Eds].
+  { intros i Hi. destruct (Hw i Hi) as [r Hr]. exact (walk_ok_decide m b draw f s i r Hr Ent). }
+  rewrite Eds. destruct (decisions_spec _ _ _ _ _ _ Eds) as [Dfst [Dsound Dcompl]].
+  set (outs := outputs s) in *.
+  set (gs := sort_groups (group_rank m outs) (groups (length outs) ds)).
+  assert (Hperm : Permutation (groups (length outs) ds) gs) by apply sort_groups_perm.
+  assert (Hnd : NoDup gs) by (apply (Permutation_NoDup Hperm), groups_NoDup).
+  rewrite seen_by_flat_map.
+  (* what one group contributes to l *)
+  assert (Hone : forall j, seen_by l (group_entries (effects f m b draw) m outs (j, group_of ds j)) =
+                           if zmem l (group_of ds j)
+                           then match nth_error outs j with
+                                | Some (OState t) =>
+                                    t :: match find_state t (m_states m) with
+                                         | Some st => if s_transient st then trail f m b draw st l else []
+                                         | None => []
+                                         end
+                                | _ => []
+                                end
+                           else []).
+  { intros j. unfold group_entries. destruct (is_nil (group_of ds j)) eqn:En.
+    - apply is_nil_false_mem in En. rewrite En. reflexivity.
+    - destruct (nth_error outs j) as [[|t]|] eqn:Eo; try (now destruct (zmem l (group_of ds j))).
+      unfold seen_by at 1. simpl filter. simpl e_members.
+      assert (Hrest : seen_by l (match find_state t (m_states m) with
+                                 | Some st => if s_transient st then effects f m b draw st (group_of ds j) else []
+                                 | None => [] end) =
+                      if zmem l (group_of ds j)
+                      then match find_state t (m_states m) with
+                           | Some st => if s_transient st then trail f m b draw st l else []
+                           | None => [] end
+                      else []).
+      { destruct (find_state t (m_states m)) as [st|] eqn:Ef; [|now destruct (zmem l (group_of ds j))].
+        destruct (s_transient st) eqn:Et; [|now destruct (zmem l (group_of ds j))].
+        apply IH. intros l' Hl'. apply group_of_In in Hl'.
+        assert (Hl'i : In l' idx) by (rewrite <- Dfst; apply (in_map fst _ _ Hl')).
+        destruct (Hw l' Hl'i) as [r Hr].
+        exact (walk_ok_inner m b draw f s l' r j t st Hr Ent (Dsound _ _ Hl') Eo Ef Et). }
+      unfold seen_by in Hrest. destruct (zmem l (group_of ds j)); simpl; [now rewrite Hrest|exact Hrest]. }
+  destruct (zmem l idx) eqn:Ez.
+  - apply zmem_In in Ez. destruct (Dcompl l Ez) as [k [Hdk Hlk]]. rewrite Hdk.
+    destruct (Hw l Ez) as [r Hr].
+    assert (Hkr : (k < length outs)%nat).
+    { simpl in Hr. rewrite Ent, Hdk in Hr. destruct (negb (znodup (map t_target (s_trans s)))); [discriminate|].
+      apply nth_error_Some. fold outs in Hr. destruct (nth_error outs k); [discriminate|discriminate]. }
+    rewrite (flat_map_single _ gs (k, group_of ds k) Hnd).
+    + rewrite Hone. rewrite (proj2 (zmem_In l _) (proj2 (group_of_In ds k l) Hlk)). reflexivity.
+    + apply (Permutation_in _ Hperm), groups_In. now exists k.
+    + intros g Hg Hne. apply (Permutation_in _ (Permutation_sym Hperm)), groups_In in Hg as [j [Hj ->]].
+      rewrite Hone. destruct (zmem l (group_of ds j)) eqn:Em; [|reflexivity]. exfalso.
+      apply zmem_In, group_of_In in Em. rewrite (Dsound _ _ Em) in Hdk. inversion Hdk; subst. now apply Hne.
+  - apply flat_map_all_nil. intros g Hg.
+    apply (Permutation_in _ (Permutation_sym Hperm)), groups_In in Hg as [j [Hj ->]]. rewrite Hone.
+    destruct (zmem l (group_of ds j)) eqn:Em; [|reflexivity]. exfalso.
+    apply zmem_In, group_of_In in Em. assert (In l idx) by (rewrite <- Dfst; apply (in_map fst _ _ Em)).
+    apply zmem_In in H. congruence.
+Qed.
+
+(* the trail of a defined walk ends where the walk ends; an unmoved simulant has an empty trail *)
+Lemma trail_walk m b draw : forall fuel s l r, walk fuel m b draw s l = Ok r ->
+  match r with
+  | Some t => trail fuel m b draw s l <> [] /\ last (trail fuel m b draw s l) 0 = t
+  | None => trail fuel m b draw s l = []
+  end.
+Proof.
+  induction fuel as [|f IH]; intros s l r H; simpl in *; [discriminate|].
+  destruct (is_nil (s_trans s)); [now inversion H|].
+  destruct (decide (m_den m) b draw s l) as [k| |]; try discriminate.
+  destruct (negb (znodup (map t_target (s_trans s)))); [discriminate|].
+  destruct (nth_error (outputs s) k) as [[|t]|]; try discriminate; [now inversion H|].
+  destruct (find_state t (m_states m)) as [st|].
+  - destruct (s_transient st).
+    + destruct (walk f m b draw st l) as [[t'|]| |] eqn:Ew; try discriminate; inversion H; subst.
+      * destruct (IH _ _ _ Ew) as [Hne Hl]. split; [discriminate|].
+        destruct (trail f m b draw st l); [congruence|exact Hl].
+      * rewrite (IH _ _ _ Ew). split; [discriminate|reflexivity].
+    + inversion H; subst. split; [discriminate|reflexivity].
+  - inversion H; subst. split; [discriminate|reflexivity].
+Qed.
+
+Lemma transition_seen_by fuel m b draw tracked col idx col' l :
+  NoDup (map s_id (m_states m)) ->
+  transition fuel m b draw tracked col idx = (col', Done) ->
+  seen_by l (transition_effects fuel m b draw tracked col idx) = own_trail fuel m b draw tracked col idx l.
+Proof.
+  intros Hnd H. destruct (transition_closed_form _ _ _ _ _ _ _ _ Hnd H) as [_ Htot].
+  unfold transition_effects, own_trail. rewrite seen_by_flat_map.
+  assert (Hone : forall s, In s (m_states m) ->
+            seen_by l (effects fuel m b draw s (affected_of tracked col idx s)) =
+            if zmem l (affected_of tracked col idx s) then trail fuel m b draw s l else []).
+  { intros s Hs. apply effects_seen_by. intros l' Hl'. apply affected_In in Hl' as [Hi [Ht Hc]].
+    apply (Htot l' s Hi Ht). rewrite Hc. now apply find_state_unique. }
+  assert (Hndl : NoDup (m_states m)) by (apply (NoDup_map_inv s_id); assumption).
+  destruct (zmem l idx && tracked l) eqn:Ez.
+  - apply andb_true_iff in Ez as [Ez Et]. apply zmem_In in Ez.
+    destruct (find_state (col l) (m_states m)) as [s|] eqn:Ef.
+    + destruct (find_state_some _ _ _ Ef) as [Hs Hid].
+      rewrite (flat_map_single _ (m_states m) s Hndl Hs).
+      * rewrite (Hone s Hs). rewrite (proj2 (zmem_In l _)); [reflexivity|]. apply affected_In. auto.
+      * intros s' Hs' Hne. rewrite (Hone s' Hs'). destruct (zmem l (affected_of tracked col idx s')) eqn:Em; [|reflexivity].
+        exfalso. apply zmem_In, affected_In in Em as [_ [_ Hc]]. apply Hne.
+        pose proof (find_state_unique _ _ Hnd Hs') as H1. rewrite <- Hc, Ef in H1. now inversion H1.
+    + apply flat_map_all_nil. intros s Hs. rewrite (Hone s Hs).
+      destruct (zmem l (affected_of tracked col idx s)) eqn:Em; [|reflexivity]. exfalso.
+      apply zmem_In, affected_In in Em as [_ [_ Hc]]. now apply (find_state_none _ _ Ef s Hs).
+  - apply flat_map_all_nil. intros s Hs. rewrite (Hone s Hs).
+    destruct (zmem l (affected_of tracked col idx s)) eqn:Em; [|reflexivity]. exfalso.
+    apply zmem_In, affected_In in Em as [Hi [Ht _]]. apply zmem_In in Hi. rewrite Hi, Ht in Ez. discriminate.
+Qed.
+
+(* Machine.cleanup *)
+Lemma map_filter_flat_map {A B C} (p : B -> bool) (h : B -> C) (F : A -> list B) l :
+  map h (filter p (flat_map F l)) = flat_map (fun a => map h (filter p (F a))) l.
+Proof. induction l as [|a r IH]; simpl; [reflexivity|]. now rewrite filter_app, map_app, IH. Qed.
+
+Lemma cleanup_seen m tracked col idx l : NoDup (map s_id (m_states m)) ->
+  map fst (filter (fun c => zmem l (snd c)) (cleanup_calls m tracked col idx)) =
+  if zmem l idx && tracked l
+  then match find_state (col l) (m_states m) with Some s => [s_id s] | None => [] end
+  else [].
+Proof.
+  intros Hnd. unfold cleanup_calls. rewrite map_filter_flat_map.
+  pose (P := fun s : state => map fst (filter (fun c : sid * list label => zmem l (snd c))
+                (let aff := affected_of tracked col idx s in if is_nil aff then [] else [(s_id s, aff)]))).
+  match goal with |- flat_map ?F _ = _ => change F with P end.
+  assert (Hone : forall s, P s = if zmem l (affected_of tracked col idx s) then [s_id s] else []).
+  { intros s. unfold P. cbv zeta. destruct (is_nil (affected_of tracked col idx s)) eqn:En.
+    - apply is_nil_false_mem in En. now rewrite En.
+    - simpl. now destruct (zmem l (affected_of tracked col idx s)). }
+  assert (Hndl : NoDup (m_states m)) by (apply (NoDup_map_inv s_id); assumption).
+  destruct (zmem l idx && tracked l) eqn:Ez.
+  - apply andb_true_iff in Ez as [Ez Et]. apply zmem_In in Ez.
+    destruct (find_state (col l) (m_states m)) as [s|] eqn:Ef.
+    + destruct (find_state_some _ _ _ Ef) as [Hs Hid].
+      rewrite (flat_map_single P (m_states m) s Hndl Hs).
+      * rewrite Hone, (proj2 (zmem_In l _)); [reflexivity|]. apply affected_In. auto.
+      * intros s' Hs' Hne. rewrite Hone. destruct (zmem l (affected_of tracked col idx s')) eqn:Em; [|reflexivity].
+        exfalso. apply zmem_In, affected_In in Em as [_ [_ Hc]]. apply Hne.
+        pose proof (find_state_unique _ _ Hnd Hs') as H1. rewrite <- Hc, Ef in H1. now inversion H1.
+    + apply flat_map_all_nil. intros s Hs. rewrite Hone.
+      destruct (zmem l (affected_of tracked col idx s)) eqn:Em; [|reflexivity]. exfalso.
+      apply zmem_In, affected_In in Em as [_ [_ Hc]]. now apply (find_state_none _ _ Ef s Hs).
+  - apply flat_map_all_nil. intros s Hs. rewrite Hone.
+    destruct (zmem l (affected_of tracked col idx s)) eqn:Em; [|reflexivity]. exfalso.
+    apply zmem_In, affected_In in Em as [Hi [Ht _]]. apply zmem_In in Hi. rewrite Hi, Ht in Ez. discriminate.
+Qed.
+
+(* ================================================================================================================
+   packaged statements about hooks (exposed by props/C17.v)
+   ================================================================================================================ *)
+Lemma hooks_after_write fuel m b draw tracked col idx col' log :
+  transition_w fuel m b draw tracked col idx = ((col', log), Done) ->
+  transition fuel m b draw tracked col idx = (col', Done) /\
+  log = transition_effects fuel m b draw tracked col idx /\
+  forall e, In e log -> e_members e <> [] /\ e_seen e = map (fun _ => e_state e) (e_members e) /\
+                        forall l, In l (e_members e) -> In l idx /\ tracked l = true.
+Proof.
+  intros H. destruct (transition_sim _ _ _ _ _ _ _ _ _ H) as [A B]. simpl in *.
+  split; [exact A|]. specialize (B eq_refl). split; [exact B|]. subst log.
+  intros e He. unfold transition_effects in He. apply in_flat_map in He as [s [_ He]].
+  destruct (effects_entries_ok m b draw _ _ _ _ He) as [E1 E2]. split; [exact E1|]. split; [exact E2|].
+  intros l Hl. pose proof (effects_members m b draw _ _ _ _ l He Hl) as Hin. apply affected_In in Hin. tauto.
+Qed.
+
+Lemma hooks_exactly_once fuel m b draw tracked col idx col' :
+  NoDup (map s_id (m_states m)) ->
+  transition fuel m b draw tracked col idx = (col', Done) ->
+  forall l, seen_by l (transition_effects fuel m b draw tracked col idx) = own_trail fuel m b draw tracked col idx l /\
+            (own_trail fuel m b draw tracked col idx l = [] -> col' l = col l) /\
+            (own_trail fuel m b draw tracked col idx l <> [] ->
+               last (own_trail fuel m b draw tracked col idx l) 0 = col' l).
+Proof.
+  intros Hnd H l. split; [now apply (transition_seen_by fuel m b draw tracked col idx col')|].
+  destruct (transition_closed_form _ _ _ _ _ _ _ _ Hnd H) as [Hcf Htot]. rewrite (Hcf l).
+  unfold own_trail, own_destination. destruct (zmem l idx && tracked l) eqn:Ez; [|split; [reflexivity|congruence]].
+  apply andb_true_iff in Ez as [Ez Et]. apply zmem_In in Ez.
+  destruct (find_state (col l) (m_states m)) as [s|] eqn:Ef; [|split; [reflexivity|congruence]].
+  destruct (Htot l s Ez Et Ef) as [r Hr]. rewrite Hr. pose proof (trail_walk m b draw fuel s l r Hr) as Ht.
+  destruct r as [t|]; simpl.
+  - destruct Ht as [Hne Hl]. split; [congruence|intros _; exact Hl].
+  - rewrite Ht. split; [reflexivity|congruence].
+Qed.
